@@ -30,9 +30,9 @@ Set(s) == {s[i] : i \in DOMAIN s}
 
 INSTANCE HashPrefixCore
 
-\* every prefix a cache entry can ever be needed for
-AllPrefixes == UNION {{x.p : x \in Set(Trace[i].n.h)} : i \in DOMAIN Trace}
-EmptyCache == [p \in AllPrefixes |-> [ttl |-> 0, hs |-> {}]]
+\* the cache is a partial function here: an entry appears when its prefix is
+\* first asked (a trace of real names touches thousands of prefixes)
+EmptyCache == [p \in {} |-> [ttl |-> 0, hs |-> {}]]
 
 VARIABLES l, db, cache, life, skip, bad, nskip
 
